@@ -422,7 +422,28 @@ def _run(item):
         except Exception as exc:
             raise C.MachineryError(f"cannot build the source program: {exc}")
         try:
-            tsub = NVSubroutineTranspiler(Subroutine(instructions=copy.deepcopy(objs), app_id=0), debug=c["debug"]).transpile()
+            sub_obj = Subroutine(instructions=copy.deepcopy(objs), app_id=0)
+            tr = NVSubroutineTranspiler(sub_obj, debug=c["debug"])
+            tsub = None
+            if c.get("retry") and prog is progs[-1]:
+                # recovery: a first transpile() is rejected part-way (hardware mode refuses the final rotation, whose
+                # denominator is finer than pi/16), the cause is removed, and the subroutine is transpiled again - by the
+                # same transpiler object or by a new one on the same Subroutine object
+                from netqasm.runtime import settings as _settings
+                _settings.set_is_using_hardware(True)
+                try:
+                    tsub = tr.transpile()
+                    real["first_attempt"] = "accepted"
+                except Exception as exc0:
+                    real["first_attempt"] = type(exc0).__name__
+                finally:
+                    _settings.set_is_using_hardware(False)
+                if real["first_attempt"] != "accepted":
+                    tsub = None
+                    if c["retry"] == "fresh":
+                        tr = NVSubroutineTranspiler(sub_obj, debug=c["debug"])
+            if tsub is None:
+                tsub = tr.transpile()
         except Exception as exc:
             real["status"] = "transpile-error"
             real["err"] = f"{type(exc).__name__}: {exc}"[:160]
@@ -473,6 +494,19 @@ def build_cases(tier: str, rng: random.Random) -> List[Dict[str, Any]]:
     for j in range(n):
         fl = ("set", "set", "set", "load", "mixed")[j % 5]
         cases.append({"ast": gen_ast(rng, fl), "debug": bool(j % 2), "meas": [rng.randrange(2) for _ in range(64)]})
+    # recovery after a rejected transpile(): the program gets a final rotation by 3 pi / 32, which hardware mode refuses
+    base = list(cases)
+    k = 0
+    for c0 in base[: (260 if tier == "quick" else 1500)]:
+        a0 = c0["ast"]
+        if a0.get("split") or a0.get("regstyle") == "free":
+            continue
+        for q in a0["alloc"]:
+            a1 = dict(a0, body=list(a0["body"]) + [{"s": "g1", "g": "rot_z", "q": q, "imm": [3, 5]}])
+            if _valid(a1):
+                cases.append(dict(c0, ast=a1, retry=("same", "fresh")[k % 2]))
+                k += 1
+                break
     return cases
 
 
@@ -634,9 +668,9 @@ def run(prop: str, tier: str) -> int:
             if rid > ndir:
                 continue
             c0, r = cases[rid - 1], rows[rid - 1]
-            w = dict(skeleton(c0["ast"]), debug=c0["debug"])
+            w = dict(skeleton(c0["ast"]), debug=c0["debug"], **({"after_rejected_transpile": c0["retry"]} if c0.get("retry") else {}))
             V.add(v[1], w, f"debug={c0['debug']}: source program {json.dumps(c0['ast'])}: {v[1]}; transpiled run: {r['real']['status']} {r['real']['err']}",
-                  {"ast": c0["ast"], "debug": c0["debug"], "meas": c0["meas"], "nv": r["real"].get("nvtext", [])})
+                  {"ast": c0["ast"], "debug": c0["debug"], "meas": c0["meas"], "retry": c0.get("retry"), "nv": r["real"].get("nvtext", [])})
         # any generated program that fails is shrunk (statement deletion, unwrapping, fewer iterations) and reported by its skeleton
         rnd = sorted((rid for rid in bad if rid > ndir), key=lambda r_: len(json.dumps(cases[r_ - 1]["ast"])))
         seen = set()
@@ -648,14 +682,14 @@ def run(prop: str, tier: str) -> int:
                 break
             budget -= 1
             small = shrink(c0, clause, tmp)
-            w = dict(skeleton(small["ast"]), debug=small["debug"])
+            w = dict(skeleton(small["ast"]), debug=small["debug"], **({"after_rejected_transpile": small["retry"]} if small.get("retry") else {}))
             key = (clause, json.dumps(w, sort_keys=True))
             if key in seen:
                 continue
             seen.add(key)
             r = _run((0, small))
             V.add(clause, w, f"debug={small['debug']}: source program {json.dumps(small['ast'])}: {clause}; transpiled run: {r['real']['status']} {r['real']['err']} "
-                  f"({len(rnd)} generated programs fail in this run)", {"ast": small["ast"], "debug": small["debug"], "meas": small["meas"], "nv": r["real"].get("nvtext", [])})
+                  f"({len(rnd)} generated programs fail in this run)", {"ast": small["ast"], "debug": small["debug"], "meas": small["meas"], "retry": small.get("retry"), "nv": r["real"].get("nvtext", [])})
         # state kept between transpilations (caches, class-level bookkeeping)
         sample = cases[:ndir] + cases[ndir:ndir + (60 if tier == "quick" else 400)]
         with ProcessPoolExecutor(max_workers=1) as one:
@@ -690,5 +724,5 @@ def run(prop: str, tier: str) -> int:
 
 
 def replay_case(prop, case, tmp):
-    rows, res, bad = judge([{"ast": case["ast"], "debug": case["debug"], "meas": case["meas"]}], tmp, "r")
+    rows, res, bad = judge([{"ast": case["ast"], "debug": case["debug"], "meas": case["meas"], "retry": case.get("retry")}], tmp, "r")
     return bad[1][1] if bad else None
